@@ -329,6 +329,45 @@ hwloc_synthetic_process_indexes(struct hwloc_synthetic_backend_data_s *data,
   return;
 }
 
+static int
+hwloc_synthetic_compare_indexes(const void *_a, const void *_b)
+{
+  unsigned a = *(const unsigned *) _a, b = *(const unsigned *) _b;
+  return a < b ? -1 : a > b;
+}
+
+/* PU and NUMA node indexes must be valid and unique, ignore the entire array otherwise */
+static void
+hwloc_synthetic_check_unique_indexes(struct hwloc_synthetic_indexes_s *indexes,
+				     unsigned long total,
+				     int verbose)
+{
+  unsigned *sorted;
+  unsigned long i;
+
+  if (!indexes->array)
+    return;
+
+  sorted = malloc(total * sizeof(*sorted));
+  if (!sorted)
+    goto ignore;
+  memcpy(sorted, indexes->array, total * sizeof(*sorted));
+  qsort(sorted, total, sizeof(*sorted), hwloc_synthetic_compare_indexes);
+  for(i=0; i<total; i++)
+    if (sorted[i] == HWLOC_UNKNOWN_INDEX || (i && sorted[i] == sorted[i-1])) {
+      free(sorted);
+      goto ignore;
+    }
+  free(sorted);
+  return;
+
+ ignore:
+  if (verbose)
+    fprintf(stderr, "Ignoring synthetic PU or NUMA node indexes with invalid or duplicate values\n");
+  free(indexes->array);
+  indexes->array = NULL;
+}
+
 static hwloc_uint64_t
 hwloc_synthetic_parse_memory_attr(const char *attr, const char **endp)
 {
@@ -866,9 +905,12 @@ hwloc_backend_synthetic_init(struct hwloc_synthetic_backend_data_s *data,
     for(attached = curlevel->attached; attached != NULL; attached = attached->next)
       hwloc_synthetic_set_default_attrs(&attached->attr, type_count);
     hwloc_synthetic_process_indexes(data, &curlevel->indexes, curlevel->totalwidth, verbose);
+    if (curlevel->attr.type == HWLOC_OBJ_PU || curlevel->attr.type == HWLOC_OBJ_NUMANODE)
+      hwloc_synthetic_check_unique_indexes(&curlevel->indexes, curlevel->totalwidth, verbose);
   }
 
   hwloc_synthetic_process_indexes(data, &data->numa_attached_indexes, data->numa_attached_nr, verbose);
+  hwloc_synthetic_check_unique_indexes(&data->numa_attached_indexes, data->numa_attached_nr, verbose);
 
   data->string = strdup(description);
   data->level[count-1].arity = 0;
